@@ -49,10 +49,11 @@ Theorem C09_code_tie :
   /\ (forall allow isfile, gen_use_default allow false isfile = allow && negb isfile)
   /\ (forall cu allow, gen_clean_up_default cu allow = (eff_clean_up cu allow, allow))
   /\ (forall allow ready, gen_check_ready allow false ready = if negb (allow || ready) then Err E_XYZ else Ok tt)
-  /\ gen_reaper_call_raw = (true, true, true, true) /\ gen_reaper_call_to_ds = (true, true, true, true).
+  /\ gen_reaper_call_raw = (true, true, true, true) /\ gen_reaper_call_to_ds = (true, true, true, true)
+  /\ gen_reference_result_is_pinned = true.
 Proof.
   exact (conj (proj1 bridge_size) (conj (proj2 bridge_size)
-        (conj bridge_use_default (conj bridge_clean_up (conj bridge_check_ready bridge_reaper_calls))))).
+        (conj bridge_use_default (conj bridge_clean_up (conj bridge_check_ready (conj (proj1 bridge_reaper_calls) (conj (proj2 bridge_reaper_calls) bridge_reference_result))))))).
 Qed.
 
 (* sensitivity: a reap entry point that does not pass allow_incomplete on leaves the Reaper with its own
